@@ -95,6 +95,19 @@ const (
 
 var probeNames = [nProbes]string{"closed_job_dequeued", "submission_rejected", "purge_removed_job", "cancel_succeeded", "close_on_processing", "ack_refused", "dequeue_refused", "enqueue_refused", "ticks_fired", "pool_cache_dropped", "barrier_returned_with_pending", "gated_quiescence", "crash_injected", "bad_entry_delivered", "dequeue_lost_race"}
 
+
+// removeAt deletes element i without the copy builtin: runtime.slicecopy is
+// race-annotated and the harness' shared slices are touched by many tasks.
+func removeAt[T any](xs []T, i int) []T {
+	out := make([]T, 0, len(xs))
+	for k := range xs {
+		if k != i {
+			out = append(out, xs[k])
+		}
+	}
+	return out
+}
+
 func newRecorder(wd *World) *Recorder { return &Recorder{wd: wd} }
 
 func (r *Recorder) stamp() uint64 { return simrt.Stamp() }
@@ -212,7 +225,7 @@ func (r *Recorder) qDeq(wd *World, q, sub int) {
 	r.qslot(q)
 	for i, x := range r.inq[q] {
 		if x == sub {
-			r.inq[q] = append(r.inq[q][:i:i], r.inq[q][i+1:]...)
+			r.inq[q] = removeAt(r.inq[q], i)
 			break
 		}
 	}
